@@ -192,6 +192,7 @@ def guard_compare(ctx):
     decoder); every stored CRC32 is compared with a computed checksum; the block check is verified."""
     F = ctx.facts
     found_adts = 0
+    measured = {}
     for an in PARSED_RECORDS:
         adt = F.adt(an)
         if adt is None:
@@ -218,6 +219,14 @@ def guard_compare(ctx):
                     if any(x[0] == 'field' and x[2] == name and len(x) > 3 and x[3] == an for x in expr_walk(cond)):
                         if cond[0] in ('bin', 'un', 'call') and _err_edge(f, s):
                             compared = (f, s)
+                            # comparisons of the field with another *measured* quantity (not a constant limit)
+                            for x in expr_walk(cond):
+                                if x[0] == 'bin' and x[1] in ('Eq', 'Ne', 'Lt', 'Le', 'Gt', 'Ge'):
+                                    for mine, other in ((x[2], x[3]), (x[3], x[2])):
+                                        if any(y[0] == 'field' and y[2] == name and len(y) > 3 and y[3] == an for y in expr_walk(mine)) and \
+                                                not all(z[0] in ('const',) for z in expr_walk(other) if z[0] in ('const', 'field', 'local', 'param', 'call')) and \
+                                                any(z[0] == 'field' and self_field_of(z) for z in expr_walk(other)):
+                                            measured.setdefault(key, []).append((x[1] if mine is x[2] else {'Lt': 'Gt', 'Le': 'Ge', 'Gt': 'Lt', 'Ge': 'Le'}.get(x[1], x[1]), f, s))
                 # other reads
                 for bi, b in enumerate(f.blocks):
                     if b['cleanup']:
@@ -243,6 +252,13 @@ def guard_compare(ctx):
                     ctx.violation(key, adt['span'], 'the index record field %s is parsed but never compared with the size of the block that '
                                   'was actually decoded: two whole blocks of a multi-block file can be swapped (or a block replaced by another '
                                   'valid block) and the file still decodes "successfully" to different data' % name)
+                continue
+            ms = measured.get(key, [])
+            ops = {m[0] for m in ms}
+            if ms and not (ops & {'Eq', 'Ne'}) and not ({'Lt', 'Le'} & ops and {'Gt', 'Ge'} & ops):
+                ctx.violation(key + ':two-sided', ms[0][1].loc(ms[0][2]), 'the field %s.%s is checked against the value the reader measured only in one '
+                              'direction (%s): a file whose field is off in the other direction (e.g. an index that lists more records than '
+                              'blocks were decoded, i.e. a whole block cut out) is accepted' % (an, name, '/'.join(sorted(ops))))
                 continue
             if compared:
                 ctx.ok(key, compared[0].loc(compared[1]), 'compared in %s; the failing edge returns Err' % compared[0].key)
